@@ -422,6 +422,23 @@ func (rp recvProp) runReal(c Case, who, smid string, n0 int, rng *rand.Rand) str
 	for runtime.NumGoroutine() > base && time.Now().Before(deadline) {
 		time.Sleep(200 * time.Microsecond)
 	}
+	// the routing goroutines are started with `go`: the goroutine count is only an approximation of "all of them ran"
+	// over WebSocket (the server's and the HTTP client's goroutines of the case end too), so there also wait until the
+	// list of routed packets has been stable for a while
+	for stable, last := 0, -1; ws && stable < 40 && time.Now().Before(deadline.Add(2*time.Second)); {
+		mu.Lock()
+		n := len(routed)
+		mu.Unlock()
+		if n == last {
+			stable++
+		} else {
+			stable, last = 0, n
+		}
+		time.Sleep(500 * time.Microsecond)
+	}
+	if !hang {
+		awaitRouted(&mu, &routed, int(sess.SMState.Inbound)-n0)
+	}
 	leaked := runtime.NumGoroutine() - base
 	if hang {
 		hungCases++ // a blocked receive loop: the run stops after three such cases (each costs its full time limit)
